@@ -55,7 +55,7 @@ func (kvs *KVS) MultiPut(pairs []KVPair) bool {
 }
 
 func (kvs *KVS) Get(key uint64) (*KVPair, bool) {
-	if key > kvs.sz || key < common.LOGSIZE {
+	if key >= kvs.sz || key < common.LOGSIZE {
 		panic(fmt.Errorf("out-of-bounds get at %v", key))
 	}
 	op := jrnl.Begin(kvs.log)
